@@ -48,7 +48,8 @@ def fq(name):
     return 'verif_kani::%s::%s' % (hs[name]['file'][:-3], name)
 
 
-VMEM_LIMIT = int(os.environ.get('VERIF_KANI_VMEM_GB', '14')) << 30
+VMEM_LIMIT = int(os.environ.get('VERIF_KANI_VMEM_GB', '9')) << 30
+MAX_JOBS = int(os.environ.get('VERIF_KANI_JOBS', '6'))
 
 
 def _limit():
@@ -102,6 +103,8 @@ def parse_output(out):
         tm = re.search(r'Verification Time: ([\d.]+)s', part)
         if 'CBMC failed' in part or 'run out of memory' in part or 'CBMC timed out' in part:
             st = None
+        if st and st.group(1) == 'FAILED' and not failed and ncheck and int(ncheck.group(1)) == 0:
+            st = None   # "0 of N failed" yet FAILED: the back end was killed (memory), not a refutation
         res[name] = {
             'name': name,
             'status': st.group(1) if st else 'NO-VERDICT',   # timeout, memory limit, crash
@@ -122,7 +125,7 @@ def run_harnesses(names, repo, outdir, prop=None, tier='quick', jobs=None, timeo
     missing = [n for n in names if n not in known]
     if missing:
         raise Undecided('kani harness(es) not found: %s' % missing)
-    jobs = jobs or min(len(names), 12)
+    jobs = min(jobs or len(names), MAX_JOBS, len(names))
     tmp, dst = scratch_copy(repo)
     env = dict(os.environ, CARGO_NET_OFFLINE='true', RUSTFLAGS='--cap-lints warn', CARGO_TARGET_DIR=os.path.join(tmp, 'target'))
     cmd = kani_cmd(names, jobs, harness_timeout=harness_timeout)
